@@ -5,7 +5,7 @@ import Hgxv.Model.C19
      nodes  : natss, inner list `node,a1,v1,a2,v2,..` (value 0 = None, t+1 = token t)
      edges  : natsss, record `part1;part2;md` (`md` as `a1,v1,..`), weights: rats, parallel
      crit   : natss, inner list `attr,v1,v2,..`
-     answer : `<nodes> <edges> <weights>` in the model's order
+     answer : `<nodes> <edges> <weights>` in the model's order, `rej` when the model's filter raises
   `svh <bound> <alpha> <edges natss> <weights nats>`
      answer : one token per size `n:N:na:bonf:thr@nodes=ks=w=p=flag@..`, `-` when there is none
   `thr <bonf> <ps rats>`  -> `<threshold> <flags>` -/
@@ -69,7 +69,9 @@ def step (s : Unit) : List String → Unit × String
       | some nodes', some edges' =>
         let c : Content Key Rat := { weighted := wt = "1", nodes := nodes', edges := edges' }
         let m := if mode = "keep" then Mode.keep else Mode.remove
-        (s, showContent (filterHg ops c ncrit ecrit m (keep = "1")))
+        match filterHg? ops c ncrit ecrit m (keep = "1") with
+        | some r => (s, showContent r)
+        | none => (s, "rej")
       | _, _ => (s, "bad-op")
     | _, _, _, _, _, _ => (s, "bad-op")
   | ["svh", bound, alpha, edges, weights] =>
